@@ -113,6 +113,7 @@ type tcase struct {
 	otherT   colType
 	rows     [][]val // key columns then one "other" column
 	fragSize int
+	bounds   []int // variable-size fragments: row offsets handed to the index writer (nil: fixed size)
 	coarse   int
 	minRows  int
 	c        *cond
@@ -131,10 +132,15 @@ func genVal(r *hx.Rng, t colType, dom int, nullPct int) val {
 	case tFloat:
 		return val{ok: true, f: float64(k)*0.5 - 1}
 	case tString:
+		if k >= 10 { // quotes, backslashes, control characters, multi-byte, common prefixes
+			return val{ok: true, s: strDomain2[k%len(strDomain2)]}
+		}
 		return val{ok: true, s: []string{"", "a", "ab", "b", "ba", "c", "d", "e", "zz", "é"}[k%10]}
 	}
 	return val{ok: true, b: k%2 == 1}
 }
+
+var strDomain2 = []string{"a'b", "a\\b", "a\\", "'", "a\nb", "a\tb", "a b", "a\x7f", "\"q\"", "ab\\'", "日本", "日", "a😀", "aaaaaaaaaaaaaaaaaaaaaaaaaaaaaaaaaaaaaaaaaaaaaaaaaaaaaaaaaaaaaaaaa", "aaaaaaaaaaaaaaaaaaaaaaaaaaaaaaaaaaaaaaaaaaaaaaaaaaaaaaaaaaaaaaaab", "A", "~"}
 
 func genCase(r *hx.Rng) *tcase {
 	w := 1 + r.Intn(3)
@@ -152,6 +158,9 @@ func genCase(r *hx.Rng) *tcase {
 		nullPct = 15
 	}
 	dom := 2 + r.Intn(5)
+	if r.Chance(15) {
+		dom = 10 + r.Intn(len(strDomain2)) // reaches the second string domain
+	}
 	for i := 0; i < n; i++ {
 		row := make([]val, w+1)
 		for j := 0; j < w; j++ {
@@ -169,6 +178,17 @@ func genCase(r *hx.Rng) *tcase {
 		return false
 	})
 	tc.fragSize = 1 + r.Intn(6)
+	if r.Chance(25) && n > 1 {
+		// variable-size fragments (fixRowsPerSegment = 0): any increasing row offsets, the last one = last row
+		for pos := 0; ; {
+			pos += 1 + r.Intn(2*tc.fragSize)
+			if pos >= n-1 {
+				break
+			}
+			tc.bounds = append(tc.bounds, pos)
+		}
+		tc.bounds = append(tc.bounds, n-1)
+	}
 	tc.coarse = []int{2, 2, 3, 8}[r.Intn(4)]
 	tc.minRows = []int{0, 0, tc.fragSize * 2, tc.fragSize*3 + 1}[r.Intn(4)]
 	tc.c = genCond(r, tc, 1+r.Intn(3), dom)
@@ -214,7 +234,7 @@ func lit(t colType, v val) string {
 		}
 		return s
 	case tString:
-		return "'" + strings.ReplaceAll(v.s, "'", "\\'") + "'"
+		return "'" + strings.NewReplacer("\\", "\\\\", "'", "\\'", "\n", "\\n").Replace(v.s) + "'"
 	}
 	if v.b {
 		return "true"
@@ -391,7 +411,11 @@ func runCase(tc *tcase) (op, ans string, missed []int, pruned, kept int, err err
 		}
 	}
 	fix := immutable.GenFixRowsPerSegment(data, tc.fragSize)
-	pkRec, pkMark, err := sparseindex.NewPKIndexWriter().Build(data, schema, fix, colstore.DefaultTCLocation, tc.fragSize)
+	fixRows := tc.fragSize
+	if tc.bounds != nil {
+		fix, fixRows = tc.bounds, 0
+	}
+	pkRec, pkMark, err := sparseindex.NewPKIndexWriter().Build(data, schema, fix, colstore.DefaultTCLocation, fixRows)
 	if err != nil {
 		return "", "", nil, 0, 0, fmt.Errorf("build: %w", err)
 	}
@@ -480,7 +504,17 @@ func runCase(tc *tcase) (op, ans string, missed []int, pruned, kept int, err err
 	}
 	for i := 0; i < nFrag; i++ {
 		has := false
-		for r := i * tc.fragSize; r < (i+1)*tc.fragSize && r < len(tc.rows); r++ {
+		lo, hi := i*tc.fragSize, (i+1)*tc.fragSize
+		if tc.bounds != nil { // fragment i = rows [fix[i-1], fix[i]), the last one includes the last row
+			lo, hi = 0, fix[i]
+			if i > 0 {
+				lo = fix[i-1]
+			}
+			if i == nFrag-1 {
+				hi = len(tc.rows)
+			}
+		}
+		for r := lo; r < hi && r < len(tc.rows); r++ {
 			if tc.c.sat(tc, tc.rows[r]) {
 				has = true
 				break
@@ -499,7 +533,7 @@ func runCase(tc *tcase) (op, ans string, missed []int, pruned, kept int, err err
 }
 
 func Run(c *hx.Ctx) error {
-	c.Stats.Rule = "random sorted key records (1-3 key columns of int/float/string/bool, duplicates, nulls, fragment size 1-6, short last fragment) x condition trees (=,!=,<,<=,>,>=, AND/OR, non-key column atoms); both search strategies; a case is non-trivial when at least one fragment was pruned and at least one kept; distinct by (op line)"
+	c.Stats.Rule = "random sorted key records (1-3 key columns of int/float/string/bool, duplicates, nulls, string keys with quotes / backslashes / control and multi-byte characters / long common prefixes, fragment size 1-6 fixed with a short last fragment or variable-size fragments) x condition trees (=,!=,<,<=,>,>=, AND/OR, non-key column atoms); both search strategies; a case is non-trivial when at least one fragment was pruned and at least one kept; distinct by (op line)"
 	n := c.Budget(6000, 400000)
 	r := hx.NewRng(c.Seed)
 	for i := 0; i < n; i++ {
@@ -537,6 +571,15 @@ func Run(c *hx.Ctx) error {
 		if hasNull {
 			c.Count("data:has-null")
 		}
+		if tc.bounds != nil {
+			c.Count("index:variable-size-fragments")
+		}
+		for _, row := range tc.rows {
+			if row[0].ok && tc.types[0] == tString && strings.ContainsAny(row[0].s, "'\\\n\"") {
+				c.Count("data:string-key-with-quote-or-escape")
+				break
+			}
+		}
 		if strings.HasPrefix(ans, "err") {
 			c.Count("answer:err")
 		} else if pruned == 0 {
@@ -554,7 +597,7 @@ func Run(c *hx.Ctx) error {
 		}
 		if len(missed) > 0 {
 			class := ""
-			c.Violation(line, class, fmt.Sprintf("fragments %v hold a matching row but were pruned; cond=%s fragSize=%d rows=%d", missed, tc.c.text(tc), tc.fragSize, len(tc.rows)))
+			c.Violation(line, class, fmt.Sprintf("fragments %v hold a matching row but were pruned; cond=%s fragSize=%d bounds=%v rows=%d", missed, tc.c.text(tc), tc.fragSize, tc.bounds, len(tc.rows)))
 		}
 		if pruned > 0 && kept > 0 {
 			c.Sample(op + " => " + ans + "   [" + tc.c.text(tc) + "]")
